@@ -9,7 +9,7 @@
    - hence (FastSound) every successful block is a factorisation of the bytes the call designates. *)
 From Coq Require Import ZArith List Lia Bool ZifyBool FMapPositive.
 From LZ4V Require Import Gen.Consts Spec.BlockSpec Model.Mem Model.Fast Model.FastApi Model.FastStream
-     Proofs.BlockSpecProofs Proofs.FactorSpec Proofs.FastBasics Proofs.FastSound Proofs.FastApiSound.
+     Proofs.BlockSpecProofs Proofs.FactorSpec Proofs.FastBasics Proofs.FastSound Proofs.FastApiSound Proofs.FastStreamMem.
 Import ListNotations.
 Local Open Scope Z_scope.
 
@@ -24,14 +24,14 @@ Definition dict_inv (d : dctx) : Prop :=
             (d_cur d - d_dictSize d <= get (d_tab d) h \/ get (d_tab d) h + LZ4_DISTANCE_MAX <= d_cur d).
 
 Definition table_inv (c : sctx) : Prop :=
-  ctx_ok (to_f c) /\ s_dictSize c <= s_cur c /\
+  ctx_ok (to_f c) /\
   match s_dctx c with
   | None => True
   | Some d => dict_inv d /\ s_dictSize c = 0 /\ forall h, get (s_tab c) h + LZ4_DISTANCE_MAX <= s_cur c
   end.
 
 (* the index range in which the streaming entry points may be called (they renormalise at 2^31) *)
-Definition stream_ready (c : sctx) : Prop := s_cur c <= 2147483648.
+Definition stream_ready (c : sctx) : Prop := s_cur c <= 2147483648 /\ s_dictSize c <= s_cur c.
 
 Lemma M32_val : M32 = 4294967296. Proof. reflexivity. Qed.
 Lemma u32_small x : 0 <= x < M32 -> u32 x = x.
@@ -46,18 +46,18 @@ Qed.
 Lemma table_inv_init : table_inv s_init.
 Proof.
   unfold table_inv, s_init, to_f. cbn [s_tab s_cur s_tt s_dictSize s_dctx].
-  split; [exact ctx_init_ok | split; [lia | exact I]].
+  split; [exact ctx_init_ok | exact I].
 Qed.
 
 (* ---------------------------------------------------------------- renormDictT *)
 Lemma renorm_inv c n :
   table_inv c -> stream_ready c -> 0 <= n <= LZ4_MAX_INPUT_SIZE ->
   let c' := renormDictT c n in
-  table_inv c' /\ s_cur c' + n <= 2147483648 /\ s_dctx c' = s_dctx c /\
+  table_inv c' /\ s_cur c' + n <= 2147483648 /\ s_dictSize c' <= s_cur c' /\ s_dctx c' = s_dctx c /\
   s_dict c' + s_dictSize c' = s_dict c + s_dictSize c /\ s_dictSize c' <= s_dictSize c /\
   (s_dictSize c <= KB64 -> s_dictSize c' = s_dictSize c).
 Proof.
-  intros ((C1 & C2 & C3 & C4) & D1 & D2) R Hn. unfold renormDictT, stream_ready in *.
+  intros ((C1 & C2 & C3 & C4) & D2) (R & D1) Hn. unfold renormDictT in *.
   cbn [to_f f_cur f_dictSize f_tab] in *. unfold LZ4_MAX_INPUT_SIZE in Hn.
   assert (U : u32 (s_cur c + n) = s_cur c + n) by (apply u32_small; rewrite M32_val; lia).
   rewrite U. cbv zeta.
@@ -80,11 +80,11 @@ Proof.
       - split; [unfold KB64; lia|]. split; [lia|]. split.
         + intros h. rewrite G. specialize (B h). lia.
         + intros _ h. rewrite G. specialize (B h). lia.
-      - split; [lia|]. destruct (s_dctx c) as [d|]; [|exact I]. destruct D2 as (D3 & D4 & D5).
+      - destruct (s_dctx c) as [d|]; [|exact I]. destruct D2 as (D3 & D4 & D5).
         split; [exact D3|]. split; [lia|].
         intros h. rewrite G. specialize (D5 h). specialize (C3 h). unfold renorm_entry, delta, LZ4_DISTANCE_MAX, KB64 in *.
         destruct (get (s_tab c) h <? s_cur c - 65536) eqn:E1; lia. }
-    split; [unfold KB64; lia|]. split; [reflexivity|]. split; [lia|]. split; lia.
+    split; [unfold KB64; lia|]. split; [unfold KB64 in *; lia|]. split; [reflexivity|]. split; [lia|]. split; lia.
   - split; [unfold table_inv, ctx_ok; cbn [to_f f_cur f_dictSize f_tab]; tauto|].
     repeat split; try reflexivity; lia.
 Qed.
@@ -223,7 +223,7 @@ Qed.
 Lemma call_ok_dictctx c d :
   table_inv c -> s_dctx c = Some d -> call_ok c CUsingDictCtx false.
 Proof.
-  intros (C & D1 & D2) E. rewrite E in D2. destruct D2 as ((I1 & I2 & I3) & Z0 & G).
+  intros (C & D2) E. rewrite E in D2. destruct D2 as ((I1 & I2 & I3) & Z0 & G).
   unfold call_ok, cd_dictSize, cd_dtab, cd_dcur. rewrite E.
   split; [lia|]. destruct C as (C1 & C2 & C3 & C4). cbn [to_f f_cur f_dictSize f_tab] in *.
   split.
@@ -246,11 +246,11 @@ Proof.
 Qed.
 
 Lemma table_inv_with_dict c d ds :
-  table_inv c -> 0 <= ds <= s_cur c -> (s_dctx c <> None -> ds = 0) -> table_inv (with_dict c d ds).
+  table_inv c -> 0 <= ds -> (s_dctx c <> None -> ds = 0) -> table_inv (with_dict c d ds).
 Proof.
-  intros ((C1 & C2 & C3 & C4) & D1 & D2) H H0. unfold table_inv, with_dict, ctx_ok.
+  intros ((C1 & C2 & C3 & C4) & D2) H H0. unfold table_inv, with_dict, ctx_ok.
   cbn [to_f f_cur f_dictSize f_tab s_tab s_cur s_tt s_dictSize s_dctx] in *.
-  split; [split; [exact C1 | split; [lia | split; [exact C3 | exact C4]]]|]. split; [lia|].
+  split; [split; [exact C1 | split; [lia | split; [exact C3 | exact C4]]]|].
   destruct (s_dctx c) as [x|]; [|exact I]. destruct D2 as (D3 & D4 & D5).
   split; [exact D3|]. split; [apply H0; discriminate | exact D5].
 Qed.
@@ -304,27 +304,27 @@ Qed.
 Lemma prelude_inv c source n :
   table_inv c -> stream_ready c -> 0 <= n <= LZ4_MAX_INPUT_SIZE -> 0 <= source ->
   let c1 := fst (prelude c source n) in let dictEnd := snd (prelude c source n) in
-  table_inv c1 /\ s_cur c1 + n <= 2147483648 /\ s_dctx c1 = s_dctx c /\
+  table_inv c1 /\ s_cur c1 + n <= 2147483648 /\ s_dictSize c1 <= s_cur c1 /\ s_dctx c1 = s_dctx c /\
   (s_dictSize c1 <> 0 -> s_dict c1 + s_dictSize c1 = dictEnd) /\
   (s_dctx c1 <> None -> dictEnd = 0).
 Proof.
   intros T R Hn Hs. pose proof (renorm_inv c n T R Hn) as P. cbv zeta in P.
-  destruct P as (T1 & R1 & X1 & S1 & L1 & _).
+  destruct P as (T1 & R1 & Q1 & X1 & S1 & L1 & _).
   unfold prelude. cbv zeta.
   set (c0 := renormDictT c n) in *.
   set (dictEnd0 := if s_dictSize c =? 0 then 0 else s_dict c + s_dictSize c).
   assert (P0 : 0 <= s_dictSize c0 <= s_cur c0 /\ 0 <= s_cur c0).
-  { destruct T1 as ((? & ? & _) & ? & _). cbn [to_f f_cur f_dictSize] in *. lia. }
+  { destruct T1 as ((? & ? & _) & _). cbn [to_f f_cur f_dictSize] in *. lia. }
   assert (A0 : s_dictSize c0 <> 0 -> s_dict c0 + s_dictSize c0 = dictEnd0).
   { intros Hz. unfold dictEnd0. destruct (s_dictSize c =? 0) eqn:E; [lia | lia]. }
   assert (Z0 : s_dctx c0 <> None -> s_dictSize c0 = 0 /\ dictEnd0 = 0).
-  { intros Hd. rewrite X1 in Hd. destruct T as (_ & _ & D). destruct (s_dctx c); [|congruence]. destruct D as (_ & D & _).
+  { intros Hd. rewrite X1 in Hd. destruct T as (_ & D). destruct (s_dctx c); [|congruence]. destruct D as (_ & D & _).
     split; [lia|]. unfold dictEnd0. destruct (s_dictSize c =? 0) eqn:E; [reflexivity | lia]. }
   (* tiny-dictionary invalidation *)
   set (cd := if (s_dictSize c0 <? 4) && negb (dictEnd0 =? source) && (n >? 0)
                 && match s_dctx c0 with None => true | Some _ => false end
              then (with_dict c0 source 0, source) else (c0, dictEnd0)).
-  assert (B : table_inv (fst cd) /\ s_cur (fst cd) = s_cur c0 /\ s_dctx (fst cd) = s_dctx c0 /\
+  assert (B : table_inv (fst cd) /\ s_cur (fst cd) = s_cur c0 /\ s_dictSize (fst cd) <= s_cur c0 /\ s_dctx (fst cd) = s_dctx c0 /\
               (s_dictSize (fst cd) <> 0 -> s_dict (fst cd) + s_dictSize (fst cd) = snd cd) /\
               (s_dctx c0 <> None -> s_dictSize (fst cd) = 0 /\ snd cd = 0) /\
               (s_dictSize (fst cd) = 0 -> snd cd <= s_dict (fst cd) \/ snd cd = 0)).
@@ -333,18 +333,18 @@ Proof.
               && match s_dctx c0 with None => true | Some _ => false end) eqn:E; cbn [fst snd].
     - split; [apply table_inv_with_dict; [exact T1 | lia | reflexivity]|].
       unfold with_dict. cbn [s_cur s_dctx s_dictSize s_dict].
-      split; [reflexivity|]. split; [reflexivity|]. split; [lia|]. split.
+      split; [reflexivity|]. split; [lia|]. split; [reflexivity|]. split; [lia|]. split.
       + intros Hd. destruct (s_dctx c0); [|congruence]. rewrite andb_false_r in E. discriminate.
       + intros _. left. lia.
-    - split; [exact T1|]. split; [reflexivity|]. split; [reflexivity|]. split; [exact A0|]. split; [exact Z0|].
+    - split; [exact T1|]. split; [reflexivity|]. split; [lia|]. split; [reflexivity|]. split; [exact A0|]. split; [exact Z0|].
       intros Hz. right. unfold dictEnd0. destruct (s_dictSize c =? 0) eqn:E2; [reflexivity|].
       exfalso. unfold c0, renormDictT in Hz. unfold KB64 in *.
       destruct (u32 (s_cur c + n) >? 2147483648); cbn [s_dictSize] in Hz; [|lia].
       destruct T as ((_ & ? & _) & _). cbn [to_f f_dictSize] in *. destruct (s_dictSize c >? 65536) eqn:E3; lia. }
-  destruct B as (B1 & B2 & B3 & B4 & B5 & B6).
+  destruct B as (B1 & B2 & B2' & B3 & B4 & B5 & B6).
   set (c1 := fst cd) in *. set (dictEnd := snd cd) in *.
   assert (P1 : 0 <= s_dictSize c1 <= s_cur c1).
-  { destruct B1 as ((? & ? & _) & ? & _). cbn [to_f f_cur f_dictSize] in *. lia. }
+  { destruct B1 as ((? & ? & _) & _). cbn [to_f f_cur f_dictSize] in *. lia. }
   destruct ((source + n >? s_dict c1) && (source + n <? dictEnd)) eqn:Eo; cbn [fst snd].
   - (* trimming *)
     set (ds0 := dictEnd - (source + n)).
@@ -359,9 +359,9 @@ Proof.
     split.
     + apply table_inv_with_dict; [exact B1 | lia|].
       intros Hd. rewrite B3 in Hd. destruct (B5 Hd) as [? ?]. lia.
-    + unfold with_dict. cbn [s_cur s_dctx s_dictSize s_dict]. rewrite B2, B3. split; [lia|]. split; [exact X1|].
+    + unfold with_dict. cbn [s_cur s_dctx s_dictSize s_dict]. rewrite B2, B3. split; [lia|]. split; [lia|]. split; [exact X1|].
       split; [lia|]. intros Hd. apply (B5 Hd).
-  - split; [exact B1|]. rewrite B2, B3. split; [lia|]. split; [exact X1|]. split; [exact B4|].
+  - split; [exact B1|]. rewrite B2, B3. split; [lia|]. split; [lia|]. split; [exact X1|]. split; [exact B4|].
     intros Hd. apply (B5 Hd).
 Qed.
 
@@ -392,18 +392,18 @@ Proof.
   intros Ht Hn Hc Hd Hx. unfold table_inv, gen_upd, ctx_ok.
   destruct Hx as [-> | Hx].
   - cbn [to_f f_cur f_dictSize f_tab s_tab s_cur s_tt s_dictSize s_dctx].
-    split; [split; [lia | split; [lia | split; intros; specialize (Ht h); lia]]|]. split; [lia | exact I].
+    split; [split; [lia | split; [lia | split; intros; specialize (Ht h); lia]]|]. exact I.
   - destruct dd; cbn [to_f f_cur f_dictSize f_tab s_tab s_cur s_tt s_dictSize s_dctx]; try rewrite Hx;
-      (split; [split; [lia | split; [lia | split; intros; specialize (Ht h); lia]]|]; split; [lia | exact I]).
+      (split; [split; [lia | split; [lia | split; intros; specialize (Ht h); lia]]|]; exact I).
 Qed.
 
 Lemma continue_call_ok c dictEnd source n :
-  table_inv c -> (s_dctx c <> None -> dictEnd = 0) -> 0 < source -> 0 <= n <= LZ4_MAX_INPUT_SIZE -> s_cur c + n <= 2147483648 ->
+  table_inv c -> s_dictSize c <= s_cur c -> (s_dctx c <> None -> dictEnd = 0) -> 0 < source -> 0 <= n <= LZ4_MAX_INPUT_SIZE -> s_cur c + n <= 2147483648 ->
   let '(cc, dd, small) := continue_call c dictEnd source n in
   call_ok cc dd small /\ 0 <= s_cur cc /\ 0 <= s_dictSize cc <= s_cur cc /\ s_cur cc + n <= 2147483648 /\
   table_inv cc /\ (dd = CUsingDictCtx \/ s_dctx cc = None \/ n = 0 /\ cc = c) /\ dd <> CNoDict.
 Proof.
-  intros T Hz Hs Hn R. pose proof T as ((C1 & C2 & C3 & C4) & D1 & D2). unfold LZ4_MAX_INPUT_SIZE in Hn.
+  intros T D1 Hz Hs Hn R. pose proof T as ((C1 & C2 & C3 & C4) & D2). unfold LZ4_MAX_INPUT_SIZE in Hn.
   cbn [to_f f_cur f_dictSize f_tab] in *. unfold continue_call.
   destruct (dictEnd =? source) eqn:E.
   - split; [apply call_ok_own; [left; reflexivity | destruct T as (T & _); exact T | exact D1]|].
@@ -415,7 +415,7 @@ Proof.
       * split; [apply call_ok_memcpy; exact (conj I1 (conj I2 I3))|]. cbn [s_cur s_dictSize s_dctx].
         split; [lia|]. split; [lia|]. split; [lia|]. split.
         { unfold table_inv, ctx_ok. cbn [to_f f_cur f_dictSize f_tab s_tab s_cur s_tt s_dictSize s_dctx].
-          split; [split; [lia | split; [lia | split; intros; specialize (I3 h); lia]]|]. split; [lia | exact I]. }
+          split; [split; [lia | split; [lia | split; intros; specialize (I3 h); lia]]|]. exact I. }
         split; [right; left; reflexivity | discriminate].
       * split; [eapply call_ok_dictctx; [exact T | exact Ed]|].
         split; [lia|]. split; [lia|]. split; [lia|]. split; [exact T|]. split; [left; reflexivity | discriminate].
@@ -440,10 +440,10 @@ Theorem fast_continue_sound m c source n cap acc :
 Proof.
   intros Hm T R Hn Hs. cbv zeta.
   pose proof (prelude_inv c source n T R Hn ltac:(lia)) as P. cbv zeta in P.
-  destruct P as (T1 & R1 & X1 & S1 & Z1).
+  destruct P as (T1 & R1 & Q1 & X1 & S1 & Z1).
   rewrite fast_continue_eq, continue_body_eq.
   set (c1 := fst (prelude c source n)) in *. set (dictEnd := snd (prelude c source n)) in *.
-  pose proof (continue_call_ok c1 dictEnd source n T1 Z1 Hs Hn R1) as K.
+  pose proof (continue_call_ok c1 dictEnd source n T1 Q1 Z1 Hs Hn R1) as K.
   destruct (continue_call c1 dictEnd source n) as [[cc dd] small].
   destruct K as (K1 & K2 & K3 & K4 & K5 & K6 & K7).
   pose proof (clamp_accel_ge acc) as Hacc.
@@ -457,18 +457,335 @@ Proof.
   assert (U : u32 n = n) by (apply u32_small; rewrite M32_val; unfold LZ4_MAX_INPUT_SIZE in *; lia).
   (* invariant of the context the kernel call returns *)
   assert (TI : table_inv (r_ctx r) /\ s_cur (r_ctx r) <= 2147483648 /\ 0 <= n <= s_cur (r_ctx r) /\
+               s_dictSize (r_ctx r) <= s_cur (r_ctx r) /\
                (s_dctx (r_ctx r) <> None -> n = 0)).
   { destruct (Z.eq_dec n 0) as [Hz|Hnz].
-    - rewrite G1 by lia. split; [exact K5|]. split; [lia|]. split; [lia|]. intros _. exact Hz.
+    - rewrite G1 by lia. split; [exact K5|]. split; [lia|]. split; [lia|]. split; [lia|]. intros _. exact Hz.
     - destruct (G2 ltac:(lia)) as (tab' & Ht & Er). rewrite Er.
       assert (Hx : dd = CUsingDictCtx \/ s_dctx cc = None) by (destruct K6 as [?|[?|[? _]]]; [left|right|lia]; assumption).
       split; [apply gen_upd_inv; try assumption; lia|].
-      unfold gen_upd. destruct Hx as [-> | Hx]; [cbn [s_cur s_dctx]; repeat split; try lia; congruence|].
-      destruct dd; cbn [s_cur s_dctx]; repeat split; try lia; try congruence. }
-  destruct TI as (TI1 & TI2 & TI3 & TI4).
+      unfold gen_upd. destruct Hx as [-> | Hx].
+      + cbn [s_cur s_dctx s_dictSize]. split; [lia|]. split; [lia|]. split; [lia|]. congruence.
+      + destruct dd; cbn [s_cur s_dctx s_dictSize]; (split; [lia|]; split; [lia|]; split; [lia|]; congruence). }
+  destruct TI as (TI1 & TI2 & TI3 & TI5 & TI4).
   destruct (dictEnd =? source).
-  - split; [exact TI1|]. split; [exact TI2 | exact G3].
+  - split; [exact TI1|]. split; [split; [exact TI2 | exact TI5] | exact G3].
   - cbn [r_ctx r_ret r_out r_consumed]. rewrite U.
     split; [apply table_inv_with_dict; [exact TI1 | lia | exact TI4]|].
-    split; [unfold stream_ready, with_dict; cbn [s_cur]; exact TI2 | exact G3].
+    split; [unfold stream_ready, with_dict; cbn [s_cur s_dictSize]; split; [exact TI2 | lia] | exact G3].
 Qed.
+
+(* ================================================================ the other operations *)
+Lemma to_f_of_f f : to_f (of_f f) = f.
+Proof. destruct f; reflexivity. Qed.
+
+Lemma table_inv_of_f f : ctx_ok f -> table_inv (of_f f).
+Proof. intros H. unfold table_inv. rewrite to_f_of_f. split; [exact H | exact I]. Qed.
+
+(* ---------------------------------------------------------------- LZ4_resetStream_fast *)
+Lemma resetStream_fast_inv c :
+  table_inv c ->
+  let c' := resetStream_fast c in
+  table_inv c' /\ s_dictSize c' = 0 /\ s_dict c' = 0 /\ s_dctx c' = None /\
+  (forall h, get (s_tab c') h + LZ4_DISTANCE_MAX <= (if s_cur c' =? 0 then KB64 else s_cur c')) /\
+  ((s_tt c <> 0 \/ s_cur c <= 2147418112) -> stream_ready c').
+Proof.
+  intros (C & _). cbv zeta. unfold resetStream_fast, s_prepareTable.
+  pose proof (prepareTable_cases (to_f c) 0 ByU32 C) as P. cbv zeta in P. destruct P as (P1 & P2 & P3).
+  split; [apply table_inv_of_f; exact P1|].
+  unfold of_f. cbn [s_dictSize s_dict s_dctx s_tab s_cur].
+  split; [exact P2|]. split; [reflexivity|]. split; [reflexivity|].
+  destruct C as (C1 & C2 & C3 & C4). cbn [to_f f_cur f_dictSize f_tab] in *.
+  unfold prepareTable, to_f in *. cbn [f_tt f_cur f_tab f_dictSize] in *. cbv zeta in *.
+  unfold tt_code, KB64, LZ4_DISTANCE_MAX, stream_ready.
+  destruct (negb (s_tt c =? 0)) eqn:E0.
+  - destruct (negb (s_tt c =? 2) || false || (s_cur c >? 1073741824) || (0 >=? 4096)) eqn:E1;
+      cbn [f_cur f_tab f_tt f_dictSize Z.eqb negb andb].
+    + split; [intros h; rewrite get_empty; lia|]. intros _. cbn [s_cur s_dictSize]. lia.
+    + destruct (s_cur c =? 0) eqn:E2; cbn [negb andb].
+      * rewrite E2. split; [intros h; specialize (C3 h); lia|]. intros _. cbn [s_cur s_dictSize]. lia.
+      * replace (s_cur c + 65536 =? 0) with false by lia.
+        split; [intros h; specialize (C3 h); specialize (C4 ltac:(lia) h); lia|]. intros _. cbn [s_cur s_dictSize]. lia.
+  - cbn [f_cur f_tab f_tt f_dictSize s_cur s_dictSize s_tab].
+    destruct (s_cur c =? 0) eqn:E2; cbn [negb andb].
+    + rewrite ?E2. split; [intros h; specialize (C3 h); lia|]. intros _. lia.
+    + replace (s_cur c + 65536 =? 0) with false by lia.
+      split; [intros h; specialize (C3 h); specialize (C4 ltac:(lia) h); lia|].
+      intros [H|H]; lia.
+Qed.
+
+(* ---------------------------------------------------------------- LZ4_loadDict / LZ4_loadDictSlow *)
+Lemma ld_pass1_range rd lo : forall k tab p idx,
+  lo <= idx ->
+  (forall h, get tab h = 0 \/ lo <= get tab h < idx) ->
+  forall h, get (ld_pass1 rd k tab p idx) h = 0 \/ lo <= get (ld_pass1 rd k tab p idx) h < idx + 3 * Z.of_nat k.
+Proof.
+  induction k as [|k IH]; intros tab p idx Hlo Ht h; cbn [ld_pass1].
+  - specialize (Ht h). lia.
+  - replace (idx + 3 * Z.of_nat (S k)) with (idx + 3 + 3 * Z.of_nat k) by lia.
+    apply IH; [lia|]. intros h'. rewrite get_set.
+    destruct (hashPosition rd ByU32 p =? h'); [right; lia|]. specialize (Ht h'). lia.
+Qed.
+
+Lemma ld_pass2_range rd lo hi : forall k tab p idx limit,
+  lo <= idx -> idx + Z.of_nat k <= hi ->
+  (forall h, get tab h = 0 \/ lo <= get tab h < hi) ->
+  forall h, get (ld_pass2 rd k tab p idx limit) h = 0 \/ lo <= get (ld_pass2 rd k tab p idx limit) h < hi.
+Proof.
+  induction k as [|k IH]; intros tab p idx limit Hlo Hhi Ht h; cbn [ld_pass2].
+  - apply Ht.
+  - cbv zeta. apply IH; [lia | lia |]. intros h'.
+    destruct (get tab (hashPosition rd ByU32 p) <=? limit); [|apply Ht].
+    rewrite get_set. destruct (hashPosition rd ByU32 p =? h'); [right; lia | apply Ht].
+Qed.
+
+Theorem loadDict_inv m a n slow :
+  let c := fst (loadDict m a n slow) in let r := snd (loadDict m a n slow) in
+  table_inv c /\ stream_ready c /\ s_cur c = KB64 /\ s_dctx c = None /\ r = s_dictSize c /\
+  0 <= s_dictSize c <= KB64 /\
+  (n < HASH_UNIT -> s_dictSize c = 0) /\
+  (HASH_UNIT <= n -> s_dictSize c = Z.min n KB64 /\ s_dict c + s_dictSize c = a + n) /\
+  (forall h, get (s_tab c) h = 0 \/ KB64 - s_dictSize c <= get (s_tab c) h < KB64) /\
+  dict_inv (view c).
+Proof.
+  cbv zeta. unfold loadDict. cbv zeta. unfold HASH_UNIT.
+  assert (Fin : forall tab ds p tt,
+            0 <= ds <= KB64 ->
+            (forall h, get tab h = 0 \/ KB64 - ds <= get tab h < KB64) ->
+            let c := mkS tab KB64 tt ds p None in
+            table_inv c /\ stream_ready c /\
+            (forall h, get (s_tab c) h = 0 \/ KB64 - s_dictSize c <= get (s_tab c) h < KB64) /\ dict_inv (view c)).
+  { intros tab ds p tt Hds Ht. cbv zeta. unfold table_inv, stream_ready, dict_inv, ctx_ok, view, KB64, LZ4_DISTANCE_MAX in *.
+    cbn [to_f f_cur f_dictSize f_tab s_tab s_cur s_tt s_dictSize s_dict s_dctx d_tab d_cur d_dictSize].
+    split; [split; [|exact I]; split; [lia | split; [lia | split; intros; specialize (Ht h); lia]]|].
+    split; [lia|]. split; [exact Ht|]. split; [lia|]. split; [lia|]. intros h. specialize (Ht h). lia. }
+  destruct (n <? 8) eqn:E; cbn [fst snd].
+  - specialize (Fin empty 0 0 0 ltac:(unfold KB64; lia) ltac:(intros h; left; apply get_empty)). cbv zeta in Fin.
+    destruct Fin as (F1 & F2 & F3 & F4). cbn [s_cur s_dctx s_dictSize s_tab s_dict] in *.
+    split; [exact F1|]. split; [exact F2|]. split; [reflexivity|]. split; [reflexivity|]. split; [reflexivity|].
+    split; [unfold KB64; lia|]. split; [intros _; reflexivity|]. split; [intros; lia|]. split; [exact F3 | exact F4].
+  - set (dictEnd := a + n).
+    set (p := if dictEnd - a >? KB64 then dictEnd - KB64 else a).
+    set (ds := dictEnd - p).
+    assert (Hds : 8 <= ds <= KB64 /\ ds = Z.min n KB64).
+    { unfold ds, p, dictEnd, KB64. destruct (a + n - a >? 65536) eqn:E2; lia. }
+    set (cnt1 := loop_count p (dictEnd - 8) 3). set (cnt2 := loop_count p (dictEnd - 8) 1).
+    assert (Hc1 : 3 * Z.of_nat cnt1 <= ds - 5).
+    { unfold cnt1, loop_count. replace (p <=? dictEnd - 8) with true by (unfold ds in Hds; lia).
+      rewrite Z2Nat.id by (assert (0 <= (dictEnd - 8 - p) / 3) by (apply Z.div_pos; unfold ds in Hds; lia); lia).
+      assert (3 * ((dictEnd - 8 - p) / 3) <= dictEnd - 8 - p) by (apply Z.mul_div_le; lia). unfold ds. lia. }
+    assert (Hc2 : Z.of_nat cnt2 = ds - 7).
+    { unfold cnt2, loop_count. replace (p <=? dictEnd - 8) with true by (unfold ds in Hds; lia).
+      rewrite Z.div_1_r. rewrite Z2Nat.id by (unfold ds in Hds; lia). unfold ds. lia. }
+    set (tab1 := ld_pass1 (get m) cnt1 empty p (KB64 - ds)).
+    assert (T1 : forall h, get tab1 h = 0 \/ KB64 - ds <= get tab1 h < KB64).
+    { intros h. pose proof (ld_pass1_range (get m) (KB64 - ds) cnt1 empty p (KB64 - ds) ltac:(lia)
+                              ltac:(intros h'; left; apply get_empty) h) as H. fold tab1 in H. lia. }
+    set (tab2 := if slow then ld_pass2 (get m) cnt2 tab1 p (KB64 - ds) (KB64 - KB64) else tab1).
+    assert (T2 : forall h, get tab2 h = 0 \/ KB64 - ds <= get tab2 h < KB64).
+    { unfold tab2. destruct slow; [|exact T1]. intros h.
+      apply (ld_pass2_range (get m) (KB64 - ds) KB64 cnt2 tab1 p (KB64 - ds) (KB64 - KB64)); [lia | lia | exact T1]. }
+    specialize (Fin tab2 ds p 2 ltac:(lia) T2). cbv zeta in Fin. destruct Fin as (F1 & F2 & F3 & F4).
+    cbn [s_cur s_dctx s_dictSize s_tab s_dict] in *.
+    split; [exact F1|]. split; [exact F2|]. split; [reflexivity|]. split; [reflexivity|]. split; [reflexivity|].
+    split; [lia|]. split; [intros; lia|]. split; [intros _; split; [lia | unfold ds, dictEnd; lia]|].
+    split; [exact F3 | exact F4].
+Qed.
+
+(* ---------------------------------------------------------------- LZ4_attach_dictionary *)
+(* the dictionary stream was prepared by LZ4_loadDict ([dict_inv], see loadDict_inv), and the working
+   stream's own entries are at least LZ4_DISTANCE_MAX behind its offset (true right after
+   LZ4_initStream / LZ4_resetStream_fast, see resetStream_fast_inv and attach_pre_init) *)
+Definition attach_pre (c : sctx) (d : option sctx) : Prop :=
+  match d with
+  | None => True
+  | Some ds => dict_inv (view ds) /\
+               forall h, get (s_tab c) h + LZ4_DISTANCE_MAX <= (if s_cur c =? 0 then KB64 else s_cur c)
+  end.
+
+Lemma attach_pre_init d : dict_inv (view d) -> attach_pre s_init (Some d).
+Proof.
+  intros H. split; [exact H|]. intros h. unfold s_init. cbn [s_tab s_cur Z.eqb].
+  rewrite get_empty. unfold LZ4_DISTANCE_MAX, KB64. lia.
+Qed.
+
+Lemma attach_inv c d :
+  table_inv c -> attach_pre c d ->
+  let c' := attach_dictionary c d in
+  table_inv c' /\ (stream_ready c -> stream_ready c').
+Proof.
+  intros ((C1 & C2 & C3 & C4) & D) P. cbv zeta. unfold attach_dictionary.
+  cbn [to_f f_cur f_dictSize f_tab] in *.
+  destruct d as [ds|].
+  - destruct P as (P1 & P2).
+    assert (Hc : 0 < (if s_cur c =? 0 then KB64 else s_cur c)) by (unfold KB64; destruct (s_cur c =? 0) eqn:E; lia).
+    assert (He : forall h, 0 <= get (s_tab c) h < (if s_cur c =? 0 then KB64 else s_cur c)).
+    { intros h. specialize (C3 h). destruct (s_cur c =? 0) eqn:E; [unfold KB64; lia|]. specialize (C4 ltac:(lia) h). lia. }
+    split.
+    + unfold table_inv, ctx_ok. cbn [to_f f_cur f_dictSize f_tab s_tab s_cur s_tt s_dictSize s_dctx].
+      split; [split; [lia | split; [lia | split; intros; specialize (He h); lia]]|].
+      destruct (s_dictSize ds =? 0); [exact I|]. split; [exact P1|]. split; [reflexivity | exact P2].
+    + intros (R1 & R2). unfold stream_ready. cbn [s_cur s_dictSize]. unfold KB64 in *.
+      destruct (s_cur c =? 0) eqn:E; lia.
+  - split.
+    + unfold table_inv, ctx_ok. cbn [to_f f_cur f_dictSize f_tab s_tab s_cur s_tt s_dictSize s_dctx].
+      split; [split; [lia | split; [lia | split; assumption]] | exact I].
+    + intros R. exact R.
+Qed.
+
+(* ---------------------------------------------------------------- LZ4_saveDict *)
+Lemma saveDict_inv m c a n :
+  mem_ok m -> table_inv c -> - 2147483648 <= n < 2147483648 ->
+  let m' := fst (fst (saveDict m c a n)) in let c' := snd (fst (saveDict m c a n)) in let r := snd (saveDict m c a n) in
+  mem_ok m' /\ table_inv c' /\ (stream_ready c -> stream_ready c') /\
+  r = s_dictSize c' /\ 0 <= r <= s_dictSize c /\ r <= KB64 /\ s_dict c' = a /\ s_dctx c' = s_dctx c /\ s_cur c' = s_cur c /\
+  (0 <= n -> r = Z.min (Z.min n KB64) (s_dictSize c)).
+Proof.
+  intros Hm T Hn. cbv zeta. unfold saveDict. cbv zeta.
+  pose proof T as ((C1 & C2 & C3 & C4) & D). cbn [to_f f_cur f_dictSize f_tab] in *.
+  set (ds1 := if u32 n >? KB64 then KB64 else n).
+  assert (H1 : 0 <= ds1 <= KB64 /\ (0 <= n -> ds1 = Z.min n KB64)).
+  { unfold ds1, u32, KB64. rewrite M32_val.
+    destruct (Z_lt_ge_dec n 0) as [Hneg|Hpos].
+    - replace (n mod 4294967296) with (n + 4294967296)
+        by (apply (Z.mod_unique _ _ (-1)); lia).
+      destruct (n + 4294967296 >? 65536) eqn:E; lia.
+    - rewrite Z.mod_small by lia. destruct (n >? 65536) eqn:E; lia. }
+  assert (U : u32 ds1 = ds1) by (apply u32_small; rewrite M32_val; unfold KB64 in *; lia).
+  rewrite U.
+  set (ds2 := if ds1 >? s_dictSize c then s_dictSize c else ds1).
+  assert (H2 : 0 <= ds2 <= s_dictSize c /\ ds2 <= KB64 /\ (0 <= n -> ds2 = Z.min (Z.min n KB64) (s_dictSize c))).
+  { unfold ds2. destruct (ds1 >? s_dictSize c) eqn:E; lia. }
+  cbn [fst snd]. unfold with_dict. cbn [s_dictSize s_dict s_dctx s_cur].
+  split.
+  { destruct (ds2 >? 0); [|exact Hm]. unfold blit. intros x. apply store_list_ok; [exact Hm | apply load_list_ok; exact Hm]. }
+  split.
+  { apply (table_inv_with_dict c a ds2 T); [lia|].
+    intros Hd. destruct (s_dctx c); [|congruence]. destruct D as (_ & D & _). lia. }
+  split; [intros (R1 & R2); unfold stream_ready; cbn [s_cur s_dictSize]; lia|].
+  split; [reflexivity|]. split; [lia|]. split; [lia|]. split; [reflexivity|]. split; [reflexivity|]. split; [reflexivity|].
+  apply H2.
+Qed.
+
+(* ---------------------------------------------------------------- one-shot entry points on a stream object *)
+Lemma src_view_ok m a n : mem_ok m -> src_ok (src_view m a n).
+Proof.
+  intros Hm x. unfold src_view, mem_of_list. apply store_list_ok; [intros y; rewrite get_empty; lia|].
+  apply load_list_ok. exact Hm.
+Qed.
+
+Lemma s_fastReset_inv m c src n cap acc :
+  mem_ok m -> table_inv c -> table_inv (r_ctx (s_fastReset m c src n cap acc)).
+Proof.
+  intros Hm (C & _). unfold s_fastReset, of_ares. cbn [r_ctx]. apply table_inv_of_f.
+  pose proof (compress_fast_extState_fastReset_sound (to_f c) (src_view m src n) n cap acc (src_view_ok m src n Hm) C) as H.
+  cbv zeta in H. apply H.
+Qed.
+
+Lemma s_extState_inv m src n cap acc :
+  mem_ok m -> table_inv (r_ctx (s_extState m src n cap acc)).
+Proof.
+  intros Hm. unfold s_extState, of_ares. cbn [r_ctx]. apply table_inv_of_f.
+  (* LZ4_compress_fast_extState = initStream + the same kernel call as the fast-reset variant on a pristine context *)
+  unfold compress_fast_extState. cbv zeta.
+  pose proof (clamp_accel_ge acc) as Hacc.
+  assert (K : forall cap' od, od <> FillOutput ->
+            ctx_ok (a_ctx (compress_generic_nodict ctx_init (src_view m src n) n cap' od (ttype_for n) false (clamp_accel acc)))).
+  { intros cap' od Hod.
+    pose proof (compress_generic_nodict_sound ctx_init (src_view m src n) n cap' od (ttype_for n) false (clamp_accel acc)
+                  (src_view_ok m src n Hm) Hod Hacc ltac:(cbn; lia) ltac:(cbn; lia) (tab_ok_init (ttype_for n) false)
+                  (ttype_for_u16 n)) as H.
+    cbv zeta in H. destruct H as (A1 & A2 & _).
+    destruct (Z_le_gt_dec n 0) as [Hle|Hgt]; [rewrite A1 by lia; exact ctx_init_ok|].
+    destruct (Z_gt_le_dec n LZ4_MAX_INPUT_SIZE) as [Hg|Hl]; [rewrite A1 by lia; exact ctx_init_ok|].
+    destruct (A2 ltac:(lia)) as (B1 & B2 & B3). unfold ctx_ok. rewrite B1, B2. cbn [ctx_init f_cur f_dictSize].
+    split; [lia|]. split; [lia|]. split; intros; specialize (B3 h); cbn [ctx_init f_cur] in B3; lia. }
+  destruct (cap >=? compressBound n); apply K; discriminate.
+Qed.
+
+Lemma s_destSize_inv m src n target acc : table_inv (r_ctx (s_destSize m src n target acc)).
+Proof. unfold s_destSize. cbn [r_ctx]. exact table_inv_init. Qed.
+
+(* ---------------------------------------------------------------- LZ4_compress_forceExtDict *)
+Lemma forceExtDict_inv m c src n :
+  mem_ok m -> table_inv c -> stream_ready c -> s_dctx c = None -> 0 <= n <= LZ4_MAX_INPUT_SIZE ->
+  let r := forceExtDict m c src n in
+  table_inv (r_ctx r) /\ stream_ready (r_ctx r).
+Proof.
+  intros Hm T R Hd Hn. cbv zeta. unfold forceExtDict.
+  pose proof (renorm_inv c n T R Hn) as P. cbv zeta in P. destruct P as (T1 & R1 & Q1 & X1 & _).
+  set (c0 := renormDictT c n) in *.
+  pose proof T1 as ((C1 & C2 & C3 & C4) & _). cbn [to_f f_cur f_dictSize f_tab] in *.
+  pose proof (s_generic_ok m c0 src n 0 NotLimited CUsingExtDict (small_dict c0) 1 Hm ltac:(discriminate) ltac:(lia) C1
+                ltac:(lia) ltac:(rewrite M32_val; lia)
+                (call_ok_own c0 CUsingExtDict (or_intror eq_refl) (proj1 T1) Q1)) as G.
+  cbv zeta in G. destruct G as (G1 & G2 & _).
+  set (r := s_generic m c0 src n 0 NotLimited CUsingExtDict (small_dict c0) 1) in *.
+  cbn [r_ctx].
+  assert (U : u32 n = n) by (apply u32_small; rewrite M32_val; unfold LZ4_MAX_INPUT_SIZE in *; lia). rewrite U.
+  assert (Hx : s_dctx c0 = None) by congruence.
+  destruct (Z.eq_dec n 0) as [Hz|Hnz].
+  - rewrite G1 by lia. split; [apply table_inv_with_dict; [exact T1 | lia | congruence]|].
+    unfold stream_ready, with_dict. cbn [s_cur s_dictSize]. lia.
+  - destruct (G2 ltac:(lia)) as (tab' & Ht & Er). rewrite Er.
+    split.
+    + apply table_inv_with_dict; [apply gen_upd_inv; try assumption; try lia; right; exact Hx | lia|].
+      unfold gen_upd. cbn [s_dctx]. congruence.
+    + unfold stream_ready, with_dict, gen_upd. cbn [s_cur s_dictSize]. lia.
+Qed.
+
+(* ================================================================ every operation, any history *)
+(* the API-level preconditions of one operation in state (m, c) *)
+Definition op_pre (st : mem * sctx) (o : op) : Prop :=
+  match o with
+  | OWrite a bs => list_ok bs
+  | OAttach d => attach_pre (snd st) d
+  | OContinue src n cap acc => stream_ready (snd st) /\ 0 <= n <= LZ4_MAX_INPUT_SIZE /\ 0 < src
+  | OForceExt src n => stream_ready (snd st) /\ s_dctx (snd st) = None /\ 0 <= n <= LZ4_MAX_INPUT_SIZE
+  | OSaveDict a n => - 2147483648 <= n < 2147483648
+  | _ => True
+  end.
+
+Fixpoint ops_pre (st : mem * sctx) (ops : list op) : Prop :=
+  match ops with
+  | [] => True
+  | o :: r => op_pre st o /\ ops_pre (fst (step st o)) r
+  end.
+
+Lemma step_inv m c o :
+  mem_ok m -> table_inv c -> op_pre (m, c) o ->
+  mem_ok (fst (fst (step (m, c) o))) /\ table_inv (snd (fst (step (m, c) o))).
+Proof.
+  intros Hm T P. destruct o; cbn [step op_pre snd] in *.
+  - cbn [fst snd]. split; [intros x; apply store_list_ok; assumption | exact T].
+  - cbn [fst snd]. split; [exact Hm | exact table_inv_init].
+  - cbn [fst snd]. split; [exact Hm | apply resetStream_fast_inv; exact T].
+  - pose proof (loadDict_inv m a n slow) as L. cbv zeta in L.
+    destruct (loadDict m a n slow) as [c' r]. cbn [fst snd] in *. split; [exact Hm | apply L].
+  - cbn [fst snd]. split; [exact Hm | apply attach_inv; assumption].
+  - destruct P as (R & Hn & Hs). cbn [fst snd]. split; [exact Hm|].
+    pose proof (fast_continue_sound m c src n cap acc Hm T R Hn Hs) as F. cbv zeta in F.
+    destruct (continue_call (fst (prelude c src n)) (snd (prelude c src n)) src n) as [[cc dd] sm]. apply F.
+  - destruct P as (R & Hd & Hn). cbn [fst snd]. split; [exact Hm | apply forceExtDict_inv; assumption].
+  - pose proof (saveDict_inv m c a n Hm T P) as S. cbv zeta in S.
+    destruct (saveDict m c a n) as [[m' c'] r]. cbn [fst snd] in *. split; apply S.
+  - cbn [fst snd]. split; [exact Hm | apply s_fastReset_inv; assumption].
+  - cbn [fst snd]. split; [exact Hm | apply s_extState_inv; assumption].
+  - cbn [fst snd]. split; [exact Hm | apply s_destSize_inv].
+Qed.
+
+(* C18 / C11: [table_inv] holds after ANY finite sequence of operations (failed compressions, resets,
+   dictionary loads and attachments, saveDict, one-shot calls, index renormalisation included) *)
+Theorem table_inv_run : forall ops st,
+  mem_ok (fst st) -> table_inv (snd st) -> ops_pre st ops ->
+  mem_ok (fst (run st ops)) /\ table_inv (snd (run st ops)).
+Proof.
+  induction ops as [|o r IH]; intros [m c] Hm T P; cbn [run fold_left fst snd] in *; [split; assumption|].
+  destruct P as (P1 & P2). destruct (step_inv m c o Hm T P1) as (Hm' & T').
+  apply (IH (fst (step (m, c) o)) Hm' T' P2).
+Qed.
+
+(* when the streaming entry points may be called again: after init / loadDict / any streaming call;
+   after LZ4_resetStream_fast unless the table was never used while the offset is beyond 2^31 - 64 KB *)
+Lemma stream_ready_init : stream_ready s_init.
+Proof. unfold stream_ready, s_init. cbn [s_cur s_dictSize]. lia. Qed.
